@@ -76,6 +76,7 @@ pub enum Dec {
     LossyAfterEscString,      // ["k\tv",lit] as (String, String), lossy
     LossyAfterRepairedString, // ["<0xff>",lit] as (String, String), lossy
     LossyAfterEscStreamValue, // 0 ["k\tv",lit] second stream document as Value, lossy
+    LossyStreamThenNumber,    // lit 7: the literal is the first stream document (repaired in a copy), the next document must still be found
 }
 
 pub const STRICT: &[Dec] = &[
@@ -111,6 +112,7 @@ pub const LOSSY: &[Dec] = &[
     Dec::LossyAfterEscString,
     Dec::LossyAfterRepairedString,
     Dec::LossyAfterEscStreamValue,
+    Dec::LossyStreamThenNumber,
 ];
 
 fn e<T>(r: sonic_rs::Result<T>) -> Result<T, Obs> {
@@ -157,6 +159,10 @@ pub fn wrap(dec: Dec, lit: &[u8], out: &mut Vec<u8>) {
         Dec::LossyStreamValue => {
             out.extend_from_slice(b"0 ");
             out.extend_from_slice(lit);
+        }
+        Dec::LossyStreamThenNumber => {
+            out.extend_from_slice(lit);
+            out.extend_from_slice(b" 7");
         }
         Dec::AfterEscString | Dec::LossyAfterEscString => {
             out.extend_from_slice(b"[\"k\\tv\",");
@@ -312,6 +318,16 @@ pub fn decode(dec: Dec, text: &[u8]) -> Option<Obs> {
                 let v = e(st.next().ok_or(Obs::Err("stream ended".into()))?)?;
                 own(v.as_str().ok_or(Obs::Err("not a string".into()))?)
             }
+            Dec::LossyStreamThenNumber => {
+                let mut st = Deserializer::from_slice(text).utf8_lossy().into_stream::<Value>();
+                let v = e(st.next().ok_or(Obs::Err("stream ended".into()))?)?;
+                let s = v.as_str().ok_or(Obs::Err("not a string".into()))?.to_string();
+                match st.next() {
+                    Some(Ok(n)) if n.as_u64() == Some(7) => {}
+                    other => return Err(Obs::Err(format!("the document after the string reads {:?}", other.map(|r| r.map(|v| v.to_string()).map_err(|e| e.to_string().lines().next().unwrap_or("").to_string()))))),
+                }
+                own(&s)
+            }
             Dec::AfterEscString => {
                 let v: (String, String) = e(sonic_rs::from_slice(text))?;
                 if v.0 != "k\tv" {
@@ -386,7 +402,14 @@ pub fn expected(dec: Dec, lit: &[u8]) -> Option<Result<(String, Option<bool>), r
         }
         // entry points that do not look behind the value they return
         Dec::GetLazy | Dec::GetUncheckedLazy => refjson::parse_value_at(&text, 5, mode),
-        Dec::LossyValue | Dec::LossyString | Dec::LossyKey | Dec::LossyAfterEscString | Dec::LossyAfterRepairedString | Dec::DeValue | Dec::StreamFirstValue => {
+        Dec::LossyValue
+        | Dec::LossyString
+        | Dec::LossyKey
+        | Dec::LossyAfterEscString
+        | Dec::LossyAfterRepairedString
+        | Dec::DeValue
+        | Dec::StreamFirstValue
+        | Dec::LossyStreamThenNumber => {
             refjson::parse_value_at(&text, 0, mode)
         }
         _ => refjson::parse_doc(&text, mode),
@@ -414,6 +437,14 @@ pub fn expected(dec: Dec, lit: &[u8]) -> Option<Result<(String, Option<bool>), r
             Kind::Str { val, .. } => Some(Ok((val.clone(), None))),
             _ => None,
         };
+    }
+    // "literal, then 7": only when the literal is one token (a body containing a quote ends early)
+    if dec == Dec::LossyStreamThenNumber {
+        if let Ok(n) = refjson::parse_value_at(&text, 0, mode) {
+            if n.end + 2 != text.len() {
+                return None;
+            }
+        }
     }
     // the unchecked get is only specified on well-formed input
     if dec == Dec::GetUncheckedLazy && refjson::parse_doc(&text, RMode::Decode).is_err() {
